@@ -1,2 +1,3 @@
 import RSSched.Model.Base
 import RSSched.Model.Network
+import RSSched.Model.Tour
